@@ -42,6 +42,10 @@ struct Svc {
     log: Arc<Mutex<Vec<(u32, u32)>>>,
     gate: Arc<AtomicBool>,
     hold: (u32, u32),
+    /// long-burst plans: while the flooder's call with this ordinal is handled, the service itself writes the
+    /// victim's call into the victim's socket (a complete call arrives in the middle of the burst, on a socket the
+    /// server has seen empty before) and notes how many calls had been handled by then
+    inject: Option<(u32, Arc<Mutex<Option<UnixStream>>>, Vec<u8>, Arc<std::sync::atomic::AtomicUsize>)>,
 }
 
 async fn nap(kind: Kind, d: Duration) {
@@ -64,6 +68,14 @@ impl Service for Svc {
         let M::Echo { client, seq } = call.method();
         let (client, seq) = (*client, *seq);
         self.log.lock().unwrap().push((client, seq));
+        if let Some((at, sock, bytes, armed)) = &self.inject {
+            if client == 0 && seq == *at {
+                if let Some(mut s) = sock.lock().unwrap().take() {
+                    let _ = s.write_all(bytes);
+                    armed.store(self.log.lock().unwrap().len(), Ordering::SeqCst);
+                }
+            }
+        }
         if (client, seq) == self.hold {
             let t0 = Instant::now();
             while !self.gate.load(Ordering::SeqCst) && t0.elapsed() < Duration::from_secs(60) {
@@ -108,6 +120,9 @@ struct Plan {
     victims: u32,
     /// a second flooder's burst is written while the first call is held, too
     seed: u64,
+    /// long burst: one flooder with hundreds of calls, the victim's call is written from inside the service while the
+    /// call with this ordinal is handled
+    inject_at: Option<u32>,
 }
 
 /// A would-be violation is only reported when it repeats: that a call is complete in the server's socket does not
@@ -133,7 +148,7 @@ fn one_case(p: &Plan, dir: &std::path::Path, rep: &mut Report) {
 }
 
 fn one_try(p: &Plan, grace: Duration, dir: &std::path::Path, rep: &mut Report) {
-    let desc = format!("real-socket fairness {} bursts={:?} victims={} seed={}", p.kind.name(), p.bursts, p.victims, p.seed);
+    let desc = format!("real-socket fairness {} bursts={:?} victims={} seed={} call_written_by_the_service_during_flooder_call={:?}", p.kind.name(), p.bursts, p.victims, p.seed, p.inject_at);
     let replay = json!({"monitor": "c18", "case": desc});
     rep.eval(vnet::fnv(desc.as_bytes()));
     rep.count("real_socket_cases");
@@ -144,11 +159,15 @@ fn one_try(p: &Plan, grace: Duration, dir: &std::path::Path, rep: &mut Report) {
     let stop = Arc::new(AtomicBool::new(false));
     let ready = Arc::new(AtomicBool::new(false));
     let kind = p.kind;
+    let victim_sock: Arc<Mutex<Option<UnixStream>>> = Arc::new(Mutex::new(None));
+    let armed = Arc::new(std::sync::atomic::AtomicUsize::new(usize::MAX));
+    let inject = p.inject_at.map(|at| (at, victim_sock.clone(), call_bytes(1, 1), armed.clone()));
+    let hold = if p.inject_at.is_some() { (u32::MAX, 0) } else { (0, 1) };
     let server = {
         let (log, gate, stop, ready, path) = (log.clone(), gate.clone(), stop.clone(), ready.clone(), path.clone());
         std::thread::spawn(move || {
             let body = async move {
-                let svc = Svc { kind, log, gate, hold: (0, 1) };
+                let svc = Svc { kind, log, gate, hold, inject };
                 macro_rules! serve {
                     ($listener:expr) => {{
                         let listener = match $listener {
@@ -206,8 +225,35 @@ fn one_try(p: &Plan, grace: Duration, dir: &std::path::Path, rep: &mut Report) {
             read_frames(&mut s, 1).map_err(inc)?;
             socks.push(s);
         }
-        // the first flooder's burst, in one write
         let burst = |c: u32, n: u32| -> Vec<u8> { (1..=n).flat_map(|k| call_bytes(c, k)).collect() };
+        if p.inject_at.is_some() {
+            // long burst: the victim's call is written by the service in the middle of it
+            *victim_sock.lock().unwrap() = Some(socks[1].try_clone().map_err(|e| inc(format!("clone: {e}")))?);
+            socks[0].write_all(&burst(0, p.bursts[0])).map_err(|e| inc(format!("write: {e}")))?;
+            let n0 = p.bursts[0] as usize;
+            read_frames(&mut socks[1], 1).map_err(|e| inc(format!("victim: {e}")))?;
+            read_frames(&mut socks[0], n0).map_err(|e| inc(format!("flooder: {e}")))?;
+            let lg = log.lock().unwrap().clone();
+            let at = armed.load(Ordering::SeqCst);
+            let Some(served) = lg.iter().position(|e| *e == (1, 1)) else {
+                return Err(("C18/real-socket-call-never-served".into(), format!("victim; log {lg:?}")));
+            };
+            if at == usize::MAX {
+                return Err(inc("the victim's call was never written".into()));
+            }
+            let waited = served.saturating_sub(at);
+            rep.evaluations += 1;
+            rep.max("max_calls_of_a_long_burst_served_before_a_call_that_arrived_meanwhile", waited as u64);
+            // (tokio's sockets make the server task yield after 128 operations; then the reactor sees the victim's call)
+            if waited > 200 {
+                return Err((
+                    "C18/real-sockets:one-connection-served-twice-while-another-had-a-call-waiting:long-burst".into(),
+                    format!("the victim's call was complete in its socket when {at} calls had been handled; it was handled after {waited} more calls of the flooder's burst of {n0}"),
+                ));
+            }
+            return Ok(());
+        }
+        // the first flooder's burst, in one write
         socks[0].write_all(&burst(0, p.bursts[0])).map_err(|e| inc(format!("write: {e}")))?;
         if !wait(&|| log.lock().unwrap().contains(&(0, 1)), 20) {
             return Err(inc("the flooder's first call did not reach the service within 20 s".into()));
@@ -288,7 +334,13 @@ pub fn run(cfg: &Cfg) -> Report {
             bursts: (0..nfl).map(|_| rng.range(3, 9) as u32).collect(),
             victims: rng.range(1, 3) as u32,
             seed: cfg.seed.wrapping_mul(2_750_159).wrapping_add(idx),
+            inject_at: None,
         };
+        // every eighth plan: a long burst with a call arriving in the middle of it
+        let p = if k % 8 == 3 { Plan { bursts: vec![rng.range(300, 500) as u32], victims: 1, inject_at: Some(rng.range(2, 40) as u32), ..p } } else { p };
+        if p.inject_at.is_some() {
+            rep.count("real_socket_long_burst_cases");
+        }
         one_case(&p, &dir, &mut rep);
         if k < 2 {
             rep.sample(4, || json!({"real_sockets": format!("{} bursts {:?} victims {}", p.kind.name(), p.bursts, p.victims)}));
